@@ -118,16 +118,24 @@ def cJson : Input → Trace → Bool
   | .json d, .json chunks typeOk loadsOk => typeOk && loadsOk && utf8Ref chunks.flatten == some d
   | _, _ => true
 
-/-- `as_text()` = decoding the whole byte string, however it is cut; `iter_text` of a non-text type is a `ValueError` -/
+/-- the pieces of `iter_text()`, joined, = decoding the whole byte string, however it is cut (for codecs whose incremental decoder
+is lawful; for opaque codecs the harness reports the joined pieces only where that is known / assumed); a non-text type is a `ValueError` -/
 def cChunking : Input → Trace → Bool
-  | .decode isText _ _ _, .decode pieces err whole =>
+  | .decode isText _ _ _, .decode _ _ pieces err whole =>
     if isText then pieces.map List.flatten == whole && err == (if pieces.isNone then some .unicodeDecodeError else none)
     else pieces.isNone && err == some .valueError
   | _, _ => true
 
+/-- `as_text()` = decoding the whole byte string in the declared charset, however it is cut - for EVERY codec -/
+def cAsText : Input → Trace → Bool
+  | .decode isText _ _ _, .decode astext aerr _ _ whole =>
+    if isText then astext == whole && aerr == (if astext.isNone then some .unicodeDecodeError else none)
+    else astext.isNone && aerr == some .valueError
+  | _, _ => true
+
 /-- the declared charset (ISO-8859-1 when absent) is the one used -/
 def cCharset : Input → Trace → Bool
-  | .decode _ cs chunks oracle, .decode _ _ whole => whole == wholeRef cs chunks.flatten oracle
+  | .decode _ cs chunks oracle, .decode _ _ _ _ whole => whole == wholeRef cs chunks.flatten oracle
   | _, _ => true
 
 def cChunkSizes : Input → Trace → Bool
@@ -205,7 +213,7 @@ def cSnapshot : Input → Trace → Bool
 
 def clauses : List (String × (Input → Trace → Bool)) :=
   [("shape", cShape), ("bytes", cBytes), ("equality", cEq), ("text-roundtrip", cText), ("json-roundtrip", cJson),
-   ("chunking-independent", cChunking), ("charset", cCharset), ("chunk-sizes", cChunkSizes),
+   ("as-text-whole", cAsText), ("chunking-independent", cChunking), ("charset", cCharset), ("chunk-sizes", cChunkSizes),
    ("chunk-concat", cChunkConcat), ("lazy", cLazy), ("ct-roundtrip", cCtRoundtrip), ("ct-history-independent", cCtHistory),
    ("snapshot", cSnapshot)]
 
